@@ -1,6 +1,8 @@
 import Hcl.Util.SExp
 import Hcl.Graph.TopoSort
 import Hcl.Model.GraphExec
+import Driver.Decode
+import Hcl.Spec.Machine
 
 /-! Line-protocol driver: one request S-expression per input line, one answer line per request.
     Answer format: `M <model result> ;; S <spec result>`. -/
@@ -42,12 +44,75 @@ def handleGraph (fields : List SExp) : String :=
     | _ => false
   s!"M {showResult res} ;; S {if cyc then "cyclic" else "acyclic"} {if implOk then "impl-valid" else "impl-invalid"}"
 
+def natField (fields : List SExp) (name : String) (d : Nat) : Nat :=
+  match field fields name with
+  | [.atom n] => n.toNat?.getD d
+  | _ => d
+
+def memOf (fields : List SExp) : Mem :=
+  (pairList (field fields "mem")).foldl (fun m p => match p.1.toNat?, p.2.toNat? with
+    | some a, some b => Mem.insert m a b
+    | _, _ => m) []
+
+/-- run `n` steps, collecting the state after each -/
+def stepN (fl : Flags) (p : Program) : Nat → State → List String → List String × String
+  | 0, _, acc => (acc.reverse, "ok")
+  | n+1, s, acc =>
+    match stepCycle fl p s with
+    | .ok s' => stepN fl p n s' (showState s' :: acc)
+    | .error e => (acc.reverse, showErr e)
+
+/-- the specification's view of the state after a cycle, printed like `showState` -/
+def showSpecState (d : Spec.Design) (σ : Spec.Val) (m : Spec.MState) : String :=
+  let ctl : List (String × Nat) := d.banks.flatMap fun b =>
+    [b.stall, b.bubble].filterMap fun n => if σ.any (fun p => p.1 == n) then none else some (n, 0)
+  let all : Spec.Val := (σ ++ ctl).map fun p => match m.bankVals.lookup p.1 with
+    | some v => (p.1, v)
+    | none => p
+  let vals := sortStrings (all.map fun p => s!"{p.1}={p.2}/{showWidth ((d.Γ p.1).getD .unlimited)}")
+  "{" ++ ",".intercalate vals ++ "|" ++ ",".intercalate (m.regs.map (fun (n : Nat) => s!"{n}")) ++ "|" ++
+    ",".intercalate (m.used.map fun a => s!"{a}:{m.mem a}") ++ "|" ++
+    (match m.status with | some n => s!"{n}" | none => "-") ++ "}"
+
+def specStepN (d : Spec.Design) : Nat → Spec.MState → List String → List String × String
+  | 0, _, acc => (acc.reverse, "ok")
+  | n+1, m, acc =>
+    match Spec.cycle d m with
+    | some (σ, m') => specStepN d n m' (showSpecState d σ m' :: acc)
+    | none => (acc.reverse, "DivideByZero")
+
+def handleProg (fields : List SExp) : String :=
+  let fl := decodeFlags (field fields "flags")
+  let cls := decodeCls (field fields "cls")
+  match field fields "stmts" with
+  | [st] =>
+    match decodeStmts st with
+    | none => "bad-request undecodable-stmts"
+    | some stmts =>
+      let model : String :=
+        match Program.new fl cls {} y86FixedFunctions stmts with
+        | .error ds => "rej " ++ showDiags ds
+        | .ok p =>
+          match State.init p (memOf fields) with
+          | .error e => "ok init-error " ++ showErr e
+          | .ok s0 =>
+            let (states, fin) := stepN fl p (natField fields "cycles" 1) s0 []
+            "ok" ++ String.join (states.map (" " ++ ·)) ++ " end=" ++ fin
+      let d := Spec.design stmts
+      let image : List (Nat × Nat) := (pairList (field fields "mem")).filterMap fun p =>
+        match p.1.toNat?, p.2.toNat? with | some a, some b => some (a, b) | _, _ => none
+      let (sstates, sfin) := specStepN d (natField fields "cycles" 1) (Spec.initialState d image) []
+      let spec := "ok" ++ String.join (sstates.map (" " ++ ·)) ++ " end=" ++ sfin
+      s!"M {model} ;; S {spec}"
+  | _ => "bad-request no-stmts"
+
 def handle (line : String) : String :=
   match SExp.parse line with
   | none => "bad-request unparsable"
   | some e =>
     match e.tagged? with
     | some ("graph", fields) => handleGraph fields
+    | some ("prog", fields) => handleProg fields
     | some (t, _) => s!"bad-request unknown-tag {t}"
     | none => "bad-request no-tag"
 
